@@ -195,9 +195,11 @@ type Daemon struct {
 	arrival     chan struct{}
 	never       chan struct{}
 
-	opensByID    map[string]int
-	wakes        []time.Time
-	phase        int
+	opensByID map[string]int
+	wakes     []time.Time
+	phase     int
+	// CancelFn cancels the context the evaluation runs under (cancel fault).
+	CancelFn     func()
 	cancelAt     int // -1 = never
 	cancelSeen   bool
 	FaultsFired  map[string]int
@@ -274,6 +276,10 @@ func (d *Daemon) cancelled(seq int) bool {
 		if !d.cancelSeen {
 			d.cancelSeen = true
 			d.FaultsFired[FaultCancel]++
+			if d.CancelFn != nil {
+				// the query's context is cancelled for real, not only the calls
+				d.CancelFn()
+			}
 		}
 		return true
 	}
